@@ -16,6 +16,9 @@ import (
 // execute.
 
 func (w *world) govEnabled() bool {
+	if w.slash != nil && w.slash.oracle {
+		return false
+	}
 	switch w.c.Prop {
 	case "C14", "C20", "C02", "C19":
 		return false
